@@ -2152,6 +2152,12 @@ fn main() {
                 };
                 for oc in ocs {
                     for ki in 0..nkeys {
+                        // sequences of three records: with the two fast
+                        // algorithms only (record handling does not depend on
+                        // the algorithm; 8, 10, 14 get all shorter sequences)
+                        if seq.len() == 3 && !matches!(env.keys[ki].alg, 13 | 15) {
+                            continue;
+                        }
                         for entry in [1u8, 2, 3] {
                             if entry == 3 && ki != nkeys - 1 {
                                 continue;
@@ -2252,7 +2258,7 @@ fn main() {
         }),
         &[
             "keys: only the fixed key files of /repo/test-data/dnssec-keys (one key per algorithm); signing algorithms limited to what the ring backend imports (8, 10, 13, 14, 15)",
-            "P1 (all sequences x owners x owner case x algorithms x entry points) is run at TTL 3600 / first validity period / signer 'z.' / class IN; P2 crosses TTL, validity period, signer-name case (and class CH at the first validity period) with three representative sequences per type; sign_sorted_zone_records (entry 3) is run with the last algorithm of the menu only",
+            "P1 (all sequences of 1..3 records x owners x owner case x entry points, with algorithms 13 and 15; sequences of 1..2 records with every algorithm) is run at TTL 3600 / first validity period / signer 'z.' / class IN; P2 crosses TTL, validity period, signer-name case (and class CH at the first validity period) with three representative sequences per type; sign_sorted_zone_records (entry 3) is run with the last algorithm of the menu only",
             "fault enumeration bases: duplicate-free sequences [v0], [v2,v0] (and [v3,v0,v2] thorough), lower-case owners; flips are single-bit; DNSKEY flags/protocol flips are recorded but not judged (not key material, not read by the primitives)",
             "NSEC: RFC 4034 6.2 (lower-case next name) and RFC 6840 5.1 (keep case) are both accepted",
             "a record TTL above the original TTL is not a covered-field alteration; such flips are expected to verify like any other TTL change",
